@@ -301,10 +301,17 @@ def dominant_of(local_id, remote_id, local_as, remote_as):
 
 
 def mgr_ints(res, passive, dominant):
-    """hook events of the peer manager -> the event encoding of op 70"""
+    """hook events of the peer manager -> the event encodings of op 70, one per peer object (a
+    DeletePeer/AddPeer pair creates a new manager)"""
+    segs = []
     out = [1 if passive else 0, 1 if dominant else 0]
     d = {"0": 0, "1": 1}
     for e in res.get("events") or []:
+        if e["kind"] == "m.done":
+            out += [14]
+            segs.append(out)
+            out = [1 if passive else 0, 1 if dominant else 0]
+            continue
         k, a = e["kind"], e["args"]
         if k == "m.enable":
             out += [12, d[a[0]]]
@@ -326,27 +333,29 @@ def mgr_ints(res, passive, dominant):
             out += [3, 1 if a[0] == "true" else 0, 1 if a[1] == "true" else 0, STATE_NUM[a[2]]]
         elif k == "m.close":
             out += [5]
-        elif k == "m.done":
-            out += [14]
         elif k == "m.collide.stopped":
             out += [6]
         elif k == "m.collide.other":
             out += [7, STATE_NUM[a[1]], STATE_NUM[a[2]]]
-    return out
+    if len(out) > 2:
+        segs.append(out)
+    return segs
 
 
 def mgr_replay(results, scenarios, remote_ids):
     """replay every recorded peer-manager history through the extracted model; returns a list of
     (index, verdict tokens) for histories on which peer.go and the model diverge"""
-    lines = []
-    for r, sc, rid in zip(results, scenarios, remote_ids):
+    lines, owner = [], []
+    for i, (r, sc, rid) in enumerate(zip(results, scenarios, remote_ids)):
         dom = dominant_of(sc["local_id"], rid, sc["local_as"], sc["remote_as"])
-        lines.append("70 " + " ".join(str(x) for x in mgr_ints(r, sc["passive"], dom)))
-    outs = run_parallel(os.path.join(BIN, "model_driver"), lines)
+        for seg in mgr_ints(r, sc["passive"], dom):
+            lines.append("70 " + " ".join(str(x) for x in seg))
+            owner.append(i)
+    outs = run_parallel(os.path.join(BIN, "model_driver"), lines) if lines else []
     bad = []
-    for i, o in enumerate(outs):
+    for k, o in enumerate(outs):
         if not o.startswith("1 "):
-            bad.append((i, o, lines[i]))
+            bad.append((owner[k], o, lines[k]))
     return bad, len(lines)
 
 
